@@ -513,9 +513,12 @@ async fn send_input(
         }
     };
 
-    state
+    if !state
         .engine
-        .spawn_session(handle, payload.input, None, None);
+        .spawn_session(handle, payload.input, None, None)
+    {
+        return StatusCode::CONFLICT.into_response();
+    }
 
     StatusCode::ACCEPTED.into_response()
 }
